@@ -23,6 +23,7 @@ func IndexTable(db objects.Store, tblSum []byte, tbl *objects.Table, logger logr
 		err       error
 		bb        []byte
 		blkIdxSum []byte
+		rowsCount int
 	)
 	logger = logger.WithName("IndexTable")
 	logger.Info("indexing table", "sum", tblSum)
@@ -48,6 +49,10 @@ func IndexTable(db objects.Store, tblSum []byte, tbl *objects.Table, logger logr
 				return fmt.Errorf("block %x has a row with %d cells for %d columns", sum, len(row), len(tbl.Columns))
 			}
 		}
+		if len(blk) > objects.BlockSize || (i < len(tbl.Blocks)-1 && len(blk) != objects.BlockSize) {
+			return fmt.Errorf("block %x at offset %d has %d rows", sum, i, len(blk))
+		}
+		rowsCount += len(blk)
 		if len(tbl.PK) > 0 {
 			tblIdx[i] = slice.IndicesToValues(blk[0], tbl.PK)
 		} else {
@@ -71,6 +76,9 @@ func IndexTable(db objects.Store, tblSum []byte, tbl *objects.Table, logger logr
 		if !bytes.Equal(blkIdxSum, tbl.BlockIndices[i]) {
 			return fmt.Errorf("block index at offset %d has different sum: %x != %x", i, blkIdxSum, tbl.BlockIndices[i])
 		}
+	}
+	if rowsCount != int(tbl.RowsCount) {
+		return fmt.Errorf("table claims %d rows but its blocks hold %d", tbl.RowsCount, rowsCount)
 	}
 	buf.Reset()
 	_, err = objects.WriteBlockTo(enc, buf, tblIdx)
